@@ -129,7 +129,7 @@ ADDENDA = {
  "C16": "Added layout: GOPATH with the vendor directory inside the injector package's directory; value types of the same name in two packages plus neighbour programs in the same invocation, incl. neighbours that import the program's own library packages in both orders. The injector file blank-imports the program's own library packages (vendored in the GOPATH+vendor layouts). File lists named from the module root and by absolute paths.",
  "C17": "Added no-injector package variants (blank imports + init; a wireinject-tagged file without injector; a directory with only a _test.go file) and bad patterns (missing directory / all files excluded) x 4 commands. Options written before the command name (wire <opts> gen|diff ./...): honoured exactly as after it, or refused with exit 2 and an untouched tree (F73). Header kinds with a // +build line (F74).",
  "C18": "Seven source variants (one's output a prefix of another's; helpers named like the next variant's import/locals/value variable), damage kinds incl. same-length, whitespace, comment before header, future/ancient mtime; tails regenerating one accepted variant after another. gen / diff / gen / diff under one -tags list in five spellings inside histories.",
- "C19": "Agreement cases: later injectors (second in file / second file / panic form / with parameters) x {missing, need-err, need-cleanup, unused, conflict}; inaccessible values x the four injector result shapes; alias and grouped set variables in show. gen and check under -tags that select which injector files belong to the package (tags \"\", prod, other; two packages). Unreferenced set variables made only of other sets (plus a binding) whose union is cyclic. show on layered programs whose sets all carry one variable name.",
+ "C19": "Agreement cases: later injectors (second in file / second file / panic form / with parameters) x {missing, need-err, need-cleanup, unused, conflict}; inaccessible values x the four injector result shapes; alias and grouped set variables in show. gen and check under -tags that select which injector files belong to the package (tags \"\", prod, other; two packages). Unreferenced set variables made only of other sets (plus a binding) whose union is cyclic. show on layered programs whose sets all carry one variable name. Every batch is also run through wire show: a package that gen and check refuse must get an error from show as well.",
  "C20": "Forms added: long/duplicate name lists, InterfaceValue into the empty interface; the result-kind matrix is judged by the full oracle (positioned diagnostic or output). Bind with interface-typed and other odd second arguments. Unusable foreign declarations named through dot imports and renamed imports.",
 }
 
